@@ -5,7 +5,8 @@ Fortran spelling `FortranWriter.get_operator(op)` and `precedence(spelling)`.
 Static part (ast over src/psyclone/psyir/backend/fortran.py): (a) the `fortran_precedence`
 list literal of precedence() is read and cross-checked against the dynamic table; (b) the
 normalised AST of binaryoperation_node / unaryoperation_node is hashed: a known hash selects the
-bracket rules (unchanged snapshot -> rules_orig, props/C02/fix.patch -> rules_fixed); an unknown
+bracket rules (unchanged snapshot -> rules_orig, props/C02/fix.patch -> rules_patch, the complete
+repair -> r_un_left); an unknown
 hash is NOTICED (shape_known := false) and the rules are then determined by probing the writer on
 discriminating trees -- the correspondence of check.py decides whether the model still fits.
 Fail-closed: unknown operators, operators without spelling/precedence, an unreadable precedence
@@ -77,7 +78,11 @@ def static_precedence(src_text):
 
 # sha256 of the normalised AST (docstrings removed) of the two methods, for the two known source states
 SHAPE_ORIG = "21043ebed9599fffa02feb7183ff24eba5b2916efb481e0233c1067bbc94e33a"    # snapshot e51c4e3
-SHAPE_FIXED = "5cdcc117378bce64f379345e1676e607b335b0e12f28738dfa5f48a730d50b1a"   # snapshot + props/C02/fix.patch
+SHAPE_PATCH = "4e861cca7c87ae5eec60d9f34fabd345887451b16d0ef4ed4822fa3ec91da566"   # snapshot + props/C02/fix.patch
+SHAPE_COMPLETE = "5cdcc117378bce64f379345e1676e607b335b0e12f28738dfa5f48a730d50b1a"   # snapshot + props/C02/fix_complete.patch.txt
+KNOWN_SHAPES = {SHAPE_ORIG: ("orig", (False, False, False, False, False)),
+                SHAPE_PATCH: ("patch", (True, True, False, True, True)),
+                SHAPE_COMPLETE: ("complete", (True, True, True, False, False))}
 
 
 def probe_rules():
@@ -99,7 +104,14 @@ def probe_rules():
           w(B(BO.POW, U(UO.PLUS, r("a")), r("b"))) == "(+a) ** b",
           w(B(BO.EQ, U(UO.NOT, r("a")), r("b"))) == "(.NOT.a) == b",
           w(B(BO.ADD, U(UO.NOT, r("a")), r("b"))) == "(.NOT.a) + b"]
-    return (pow_left, rel_left, all(un)), {"pow_left": pow_left, "rel_left": rel_left, "un_left_probes": un}
+    deep = w(B(BO.ADD, r("a"), B(BO.MUL, B(BO.MUL, U(UO.MINUS, r("b")), r("c")), r("d")))) == "a + (-b) * c * d"
+    plus = w(B(BO.ADD, r("a"), B(BO.MUL, U(UO.PLUS, r("b")), r("c")))) == "a + (+b) * c"
+    if all(un):
+        # every unary left operand of a tighter operator is bracketed: the two remaining
+        # decisions cannot be observed (and do not matter)
+        deep = plus = False
+    return ((pow_left, rel_left, all(un), deep, plus),
+            {"pow_left": pow_left, "rel_left": rel_left, "un_left_probes": un, "deep": deep, "plus": plus})
 
 
 def run():
@@ -144,12 +156,11 @@ def run():
     # ---- shape of the bracket code
     h = method_hash(src_text)
     probed, probe_detail = probe_rules()
-    if h == SHAPE_ORIG:
-        rules, known = (False, False, False), True
-    elif h == SHAPE_FIXED:
-        rules, known = (True, True, True), True
+    if h in KNOWN_SHAPES:
+        state, rules = KNOWN_SHAPES[h]
+        known = True
     else:
-        rules, known = probed, False
+        state, rules, known = "unknown", probed, False
     if known and probed != rules:
         raise TranslateError("bracket code has a known shape (%s) but the writer behaves differently: %s"
                              % (h[:12], probe_detail))
@@ -166,13 +177,13 @@ def run():
     lines += ["  end.", "Definition un_str (o : unop) : string :=", "  match o with"]
     lines += ["  | %s => %s" % (k, core.coq_str(un_str[k])) for k in UN]
     lines += ["  end.",
-              "Definition impl_rules : rules := mkRules %s %s %s." % tuple(b(x) for x in rules),
+              "Definition impl_rules : rules := mkRules %s %s %s %s %s." % tuple(b(x) for x in rules),
               "Definition shape_known : bool := %s." % b(known), ""]
     changed = core.write_if_changed(core.COQ / "C02" / "Gen.v", "\n".join(lines))
     return {"rules": rules, "shape_known": known, "shape_hash": h, "probe": probe_detail,
             "bin_str": bin_str, "bin_prec": bin_prec, "un_str": un_str, "un_prec": un_prec,
             "gen_changed": changed,
-            "state": "orig" if h == SHAPE_ORIG else "fixed" if h == SHAPE_FIXED else "unknown"}
+            "state": state}
 
 
 if __name__ == "__main__":
